@@ -118,6 +118,10 @@ theorem castIter_req (cnt : Nat) (s : Slots) (id : Nat) (hc : Bool) (items : Lis
   simp only
   split <;> rfl
 
+theorem defaultHandler_req (s : Slots) (r : RState) (body : Out) (s' : Slots) (o : Out)
+    (h : defaultHandler s r body = some (s', o)) : s'.req = s.req := by
+  rcases defaultHandler_cases s r body s' o h with ⟨rfl, _⟩ | ⟨j, rfl, _⟩ <;> rfl
+
 theorem castOut_req (app : App) (fw : Bool) (cnt : Nat) (s : Slots) (out : Out) :
     slotsReq (castOut app fw cnt s out) = s.req := by
   unfold castOut
@@ -130,7 +134,14 @@ theorem castOut_req (app : App) (fw : Bool) (cnt : Nat) (s : Slots) (out : Out) 
     · unfold finishEmpty; rfl
     · unfold finishBytes; rfl
   · simp only
-    split <;> rfl
+    split
+    · split
+      · rfl
+      · rename_i s'' o hd
+        exact (defaultHandler_req _ _ _ _ _ hd).trans rfl
+    · rfl
+    · rfl
+    · rfl
   · rfl
   · split
     · rfl
@@ -147,7 +158,11 @@ theorem step_req (app : App) (fw : Bool) (c : Cfg) : slotsReq (step app fw c) = 
     unfold step
     simp only
     split
-    · rw [castOut_req]; rfl
+    · split
+      · rfl
+      · rename_i s'' o hd
+        rw [castOut_req]
+        exact (defaultHandler_req _ _ _ _ _ hd).trans rfl
     · rw [castOut_req]; rfl
 
 /-- `_cast` does not touch the request object -/
@@ -160,7 +175,7 @@ theorem cast_req (app : App) (fw : Bool) (s : Slots) (out : Out) : (Wsgi.cast ap
   · rename_i heq; rw [heq] at this; exact this
 
 theorem handle_req (app : App) (s : Slots) (q : Req) :
-    (handle app s q).1.req = some { id := q.id, urlRepr := q.urlRepr } := by
+    (handle app s q).1.req = some { id := q.id, urlRepr := q.urlRepr, json := q.json } := by
   unfold handle
   rw [reinit_eq]
   unfold handleFrom
@@ -169,7 +184,7 @@ theorem handle_req (app : App) (s : Slots) (q : Req) :
 
 /-- after the call the request object points at this request's environ -/
 theorem wsgi_req (app : App) (s : Slots) (q : Req) :
-    (wsgi app s q).slots.req = some { id := q.id, urlRepr := q.urlRepr } := by
+    (wsgi app s q).slots.req = some { id := q.id, urlRepr := q.urlRepr, json := q.json } := by
   have hh := handle_req app s q
   unfold wsgi
   rcases hh' : handle app s q with ⟨s1, ev1, out⟩
